@@ -108,6 +108,15 @@ def extract():
     for f in PIN_FUNCS:
         b = func_body(gen, f)
         pinned.append(("func " + f, norm(b) if b else "<missing>"))
+    # the constant combination of `r1=r0+c1; r2=r1+c2 => r2=r0+(c1+c2)` in gvn_modify, and how a constant
+    # operand of add/sub enters it
+    mm = re.search(r"r2=temp\+\(const\+const2\): \*/(.*?)new_bb_insn2 = NULL;", gen, flags=re.S)
+    snippet = mm.group(1) if mm else ""
+    keep = [l.strip() for l in snippet.split("\n") if re.search(r"val2|insn->code == MIR_ADDS|MIR_new_insn \(ctx, MIR_(ADDS|ADD|MOV), insn->ops\[0\]", l)]
+    pinned.append(("snippet gvn_modify add/sub chain", norm(" ".join(keep)) if keep else "<missing>"))
+    b = func_body(gen, "add_sub_const_insn_p")
+    mm = re.search(r"\*val = (.*?);", b or "", flags=re.S)
+    pinned.append(("snippet add_sub_const_insn_p value", norm(mm.group(1)) if mm else "<missing>"))
     return fold, other_fold, rev, comm, comb, pinned
 
 
